@@ -84,7 +84,7 @@ def describe(tier):
         'bounds': '2^6 placements x 3 restart options per (scheme, database); 7 steps',
         'assumptions': ['in-memory transport instead of TCP (validated by mc/loopback.py on loopback TCP)',
                         'server restart = the server process is killed between two client commands and started again on the same directory'],
-        'must_be_nonzero': ['workflows', 'absent-searched', 'server-restarts', 'reloads', 'tcp-loopback-replays', 'two-service-workflows', 'patterned-keys', 'timing-variants', 'early-object-variants', 'cli-workflows', 'large-workflows'],
+        'must_be_nonzero': ['workflows', 'absent-searched', 'server-restarts', 'reloads', 'tcp-loopback-replays', 'two-service-workflows', 'patterned-keys', 'timing-variants', 'early-object-variants', 'cli-workflows', 'large-workflows', 'concurrent-searches'],
     }
 
 
@@ -313,6 +313,39 @@ def run_two_services(r, seed, name, order):
                         r.outcome('two-services-differs')
                     else:
                         r.outcome('two-services-ok')
+        # both client objects alive and connected, their searches IN FLIGHT AT THE SAME TIME (one client process serving two
+        # services): every reply must reach the object that asked
+        step = 'concurrent-search'
+        kws = [list(jd[0]) + ['nokw'], list(jd[1]) + ['nokw']]
+        for c_ in cl:
+            c_.load()
+        for k in range(max(len(kws[0]), len(kws[1]))):
+            pair = [kws[0][k % len(kws[0])], kws[1][k % len(kws[1])]]
+            sinks = [[], []]
+
+            def mk(i):
+                async def one():
+                    res_ = cl[i].svc.handle_keyword_search(bytes(pair[i], 'utf-8'), wait=True, wait_callback_func=lambda fut, i=i: sinks[i].append(fut.result()))
+                    if hasattr(res_, '__await__'):
+                        await res_
+                return one()
+            ts = [w.loop.spawn(mk(i), cl[i].comp) for i in (idx if k % 2 == 0 else idx[::-1])]
+            w.loop.run_until(lambda: all(t.done() for t in ts))
+            for t in ts:
+                t.result()
+            r['transitions'] += 2
+            r.count('concurrent-searches')
+            for i in (0, 1):
+                exp = bd[i].get(bytes(pair[i], 'utf-8'), [])
+                res = cl[i].svc.sse_module_loader.SSEResult.deserialize(sinks[i][0], cl[i].svc.config_object).get_result_list() if len(sinks[i]) == 1 else None
+                if res is None or not sse.result_ok(name, res, exp):
+                    r.v(PROPERTY, name, 'result-differs', 'two-services/concurrent/' + (sse.classify_diff(name, res, exp) if res is not None else 'callbacks=%d' % len(sinks[i])),
+                        dict(case, service=i, keyword=pair[i], concurrent_with=pair[1 - i]), exp, res)
+                    r.outcome('two-services-differs')
+                else:
+                    r.outcome('two-services-ok')
+        for c_ in cl:
+            c_.drop()
     except Exception as e:
         r.v(PROPERTY, name, 'step-raises', 'two-services/%s/%s:%s' % (step, core.exc_site(e), type(e).__name__), dict(case, step=step), 'workflow step succeeds', core.exc_text(e))
     finally:
